@@ -7,6 +7,7 @@ import DesyncModel.Tables.Claim
 import DesyncModel.FactSyncFuture
 import DesyncModel.Lemmas
 import DesyncModel.Setters
+import DesyncModel.Inv.DrainReach
 
 namespace Desync.C08
 open Desync Gen
@@ -70,5 +71,12 @@ theorem cancelled_slot_continues (s : State) (u : Nat) (sf : SyncFut) (hu : s.sf
 /-- a sibling future's `waitingForPoll` is never taken over (needed for nested awaits) -/
 theorem sibling_not_stolen (self f : Nat) (h : f ≠ self) : pollDecide self (.waitingForPoll f) = (.waitingForPoll f, .wait, true) :=
   pollDecide_other_waits self f h
+
+/-- a cancelled future_sync whose scheduler future was the designated poller of the queue releases the queue: the queue can be
+`waitingForPoll f` only for a future of its own whose flag is set, which is exactly when `Drop` hands it back (`DrainInv`) -/
+theorem cancelled_poller_is_draining {s : State} (hr : Reachable s) {q f : Nat} {v : JobQ}
+    (hv : s.qs[q]? = some v) (hst : v.state = .waitingForPoll f) :
+    ∃ fu, s.futs[f]? = some fu ∧ fu.draining = true ∧ fu.q = q :=
+  designated_poller_is_draining hr hv hst
 
 end Desync.C08
